@@ -89,8 +89,18 @@ func c15xParseInt(s string, base int, bitSize int) (int64, error) {
 	return 0, &strconv.NumError{Func: "ParseInt", Num: "?", Err: strconv.ErrRange}
 }
 
+// c15xZone replaces (*time.Location).lookup symbolically: the process runs in
+// UTC (the tz database is read from the environment / files, which the engine
+// does not execute). Only reached through InvoiceStateAMP.copy, which marshals
+// the settle date of a settled AMP sub-invoice.
+func c15xZone(l *time.Location, sec int64) (string, int, int64, int64, bool) {
+	return "UTC", 0, math.MinInt64, math.MaxInt64, false
+}
+
 func c15xSetup() {
 	me := "github.com/lightningnetwork/lnd/invoices."
+	vReplace("(*time.Location).lookup", me+"c15xZone")
+	vAssumption("the local time zone is UTC in the symbolic run ((*time.Location).lookup replaced); times are compared as instants")
 	vReplace("strconv.FormatUint", me+"c15xFormatUint")
 	vReplace("strconv.FormatInt", me+"c15xFormatInt")
 	vReplace("strconv.ParseUint", me+"c15xParseUint")
@@ -139,6 +149,12 @@ type c15xWorld struct {
 	sets [][32]byte   // their set ids (AMP)
 
 	other CircuitKey // circuit key of the HTLC held by the other invoice
+
+	// strictAmpIdx: compare the settle index / date of AMP sub-invoices also
+	// when the step wrote the settled state of one set more than once or
+	// onto an already settled set (see NOTES.md, CANDIDATE FINDING)
+	strictAmpIdx bool
+	resettled    bool // computed per step
 
 	canceledOne bool // a single HTLC was canceled earlier (MPP/AMP set timeout)
 }
@@ -248,7 +264,7 @@ func c15xPreEq(a, b *lntypes.Preimage) bool {
 
 // compare: the invoice UpdateInvoice returned (ret) against what LookupInvoice
 // reads back from the tables through the same reference (got).
-func c15xCompare(ret, got *Invoice) {
+func c15xCompare(ret, got *Invoice, ampIdx bool) {
 	vAssert(got.State == ret.State, "read back: invoice state equals the returned one")
 	vAssert(got.AmtPaid == ret.AmtPaid, "read back: amount paid equals the returned one")
 	vAssert(got.SettleIndex == ret.SettleIndex, "read back: settle index equals the returned one")
@@ -292,8 +308,10 @@ func c15xCompare(ret, got *Invoice) {
 		}
 		vAssert(gs.State == rs.State, "read back: AMP sub-invoice state equals the returned one")
 		vAssert(gs.AmtPaid == rs.AmtPaid, "read back: AMP sub-invoice amount paid equals the returned one")
-		vAssert(gs.SettleIndex == rs.SettleIndex, "read back: AMP sub-invoice settle index equals the returned one")
-		vAssert(gs.SettleDate.Equal(rs.SettleDate), "read back: AMP sub-invoice settle date equals the returned one")
+		if ampIdx {
+			vAssert(gs.SettleIndex == rs.SettleIndex, "read back: AMP sub-invoice settle index equals the returned one")
+			vAssert(gs.SettleDate.Equal(rs.SettleDate), "read back: AMP sub-invoice settle date equals the returned one")
+		}
 		vAssert(len(gs.InvoiceKeys) == len(rs.InvoiceKeys), "read back: AMP sub-invoice has the returned circuit keys")
 		for k := range rs.InvoiceKeys {
 			_, ok := gs.InvoiceKeys[k]
@@ -383,7 +401,7 @@ func (w *c15xWorld) checkRows(ret *Invoice, before c15xSnap, full bool) {
 			vAssert(r.InvoiceID == w.id1, "row: AMP sub-invoice belongs to the invoice")
 			vAssert(r.State == int16(s.State), "row: AMP sub-invoice state is the returned state")
 			vAssert(r.SettleIndex.Valid == (s.State == HtlcStateSettled), "row: AMP settle index set iff settled")
-			if r.SettleIndex.Valid {
+			if r.SettleIndex.Valid && (w.strictAmpIdx || !w.resettled) {
 				vAssert(uint64(r.SettleIndex.Int64) == s.SettleIndex, "row: AMP settle index is the returned one")
 			}
 		}
@@ -460,8 +478,31 @@ func (w *c15xWorld) after(ref InvoiceRef, ret *Invoice, err error, before c15xSn
 	if lerr != nil {
 		return false
 	}
-	c15xCompare(ret, &got)
+	// did the step write the settled state of a set twice, or onto a set that
+	// was settled before?
+	w.resettled = false
+	for i, u := range w.f.upd {
+		if u.kind != c15xUpdAmpState || u.state != int16(HtlcStateSettled) {
+			continue
+		}
+		for j, o := range w.f.upd {
+			if j < i && o.kind == c15xUpdAmpState && o.state == int16(HtlcStateSettled) &&
+				string(o.setID) == string(u.setID) {
+
+				w.resettled = true
+			}
+		}
+		for _, b := range before.sub {
+			if b.State == int16(HtlcStateSettled) && string(b.SetID) == string(u.setID) {
+				w.resettled = true
+			}
+		}
+	}
+	c15xCompare(ret, &got, w.strictAmpIdx || !w.resettled)
 	w.checkRows(ret, before, full)
+	if w.resettled {
+		vReach("amp-settled-state-written-again")
+	}
 
 	return true
 }
@@ -674,3 +715,220 @@ func c15xStepEntry(steps int) {
 // VerifC15xStep2 / VerifC15xStep3: histories of 2 / 3 UpdateInvoice steps.
 func VerifC15xStep2() { c15xStepEntry(2) }
 func VerifC15xStep3() { c15xStepEntry(3) }
+
+// ---------------------------------------------------------------------------
+// steps on an AMP invoice
+// ---------------------------------------------------------------------------
+
+const (
+	c15xAmpAdd = iota
+	c15xAmpAddComplete
+	c15xAmpCancelHtlc
+	c15xAmpCancelInvoice
+	c15xAmpCancelSet
+	c15xAmpNumOps
+)
+
+// setID: any set id out of 256 (one symbolic byte), never the blank one.
+func c15xSetID() [32]byte {
+	var s [32]byte
+	s[0] = vU8("set")
+	s[31] = 0x5e
+	return s
+}
+
+func (w *c15xWorld) ampStep() {
+	op := vChoice("op", c15xAmpNumOps)
+	before := w.f.snapshot()
+	w.f.upd = nil
+
+	var (
+		desc  *InvoiceUpdateDesc
+		key   CircuitKey
+		sid   [32]byte
+		share [32]byte
+		ref   InvoiceRef
+		hint  *SetID
+		full  bool
+	)
+	switch op {
+	case c15xAmpAdd, c15xAmpAddComplete, c15xAmpCancelSet:
+		// an HTLC with MPP + AMP records arrives: ctx.invoiceRef() is by
+		// payment address, the set id is the hint
+		key = w.newKey()
+		sid = c15xSetID()
+		share[0] = byte(0x40 + len(w.keys))
+		share[1] = 0x77
+		ref = InvoiceRefByAddr(w.addr1)
+		hint = (*SetID)(&sid)
+		sharePre := lntypes.Preimage(share)
+		desc = &InvoiceUpdateDesc{
+			UpdateType: AddHTLCsUpdate,
+			AddHtlcs: map[CircuitKey]*HtlcAcceptDesc{key: {
+				AcceptHeight:  vI32("height"),
+				Amt:           lnwire.MilliSatoshi(vU64("amt")),
+				MppTotalAmt:   lnwire.MilliSatoshi(vU64("mppTotal")),
+				Expiry:        vU32("expiry"),
+				CustomRecords: make(record.CustomSet),
+				AMP: &InvoiceHtlcAMPData{
+					Record: *record.NewAMP(share, sid, vU32("child")),
+					Hash:   sharePre.Hash(),
+				},
+			}},
+		}
+
+	case c15xAmpCancelHtlc:
+		// AMP set timeout: the reference is InvoiceRefBySetID(set id)
+		j := vChoice("which", len(w.keys)+1)
+		if j < len(w.keys) {
+			key, sid = w.keys[j], w.sets[j]
+		} else {
+			key, sid = w.newKey(), c15xSetID()
+		}
+		ref = InvoiceRefBySetID(sid)
+		hint = (*SetID)(&sid)
+		desc = &InvoiceUpdateDesc{
+			UpdateType:  CancelHTLCsUpdate,
+			CancelHtlcs: map[CircuitKey]struct{}{key: {}},
+			SetID:       hint,
+		}
+
+	case c15xAmpCancelInvoice:
+		ref = InvoiceRefByHash(w.hash1)
+		full = true
+		desc = &InvoiceUpdateDesc{
+			UpdateType: CancelInvoiceUpdate,
+			State:      &InvoiceStateUpdateDesc{NewState: ContractCanceled},
+		}
+	}
+
+	var (
+		stateBefore ContractState
+		applied     bool
+		settled     int
+	)
+	cb := func(inv *Invoice) (*InvoiceUpdateDesc, error) {
+		stateBefore = inv.State
+		switch op {
+		case c15xAmpAdd, c15xAmpAddComplete, c15xAmpCancelSet:
+			// updateMpp only accepts payments to open invoices
+			if inv.State != ContractOpen {
+				return nil, nil
+			}
+		}
+		switch op {
+		case c15xAmpAddComplete:
+			// the set is complete: the preimages of the accepted HTLCs of
+			// the set and of the new one (harness convention: the preimage
+			// of an HTLC is its share, its hash the hash of that)
+			pre := map[CircuitKey]lntypes.Preimage{key: lntypes.Preimage(share)}
+			for k, h := range inv.HTLCSet(&sid, HtlcStateAccepted) {
+				pre[k] = lntypes.Preimage(h.AMP.Record.RootShare())
+			}
+			settled = len(pre)
+			desc.State = &InvoiceStateUpdateDesc{
+				NewState:      ContractSettled,
+				HTLCPreimages: pre,
+				SetID:         &sid,
+			}
+
+		case c15xAmpCancelSet:
+			// reconstructAMPPreimages failed: the invoice is canceled
+			desc.UpdateType = CancelInvoiceUpdate
+			desc.State = &InvoiceStateUpdateDesc{NewState: ContractCanceled, SetID: &sid}
+
+		case c15xAmpCancelHtlc:
+			if inv.State != ContractOpen {
+				return nil, nil
+			}
+			h, ok := inv.Htlcs[key]
+			if !ok {
+				return nil, errC15xUnused
+			}
+			if h.State != HtlcStateAccepted {
+				return nil, nil
+			}
+		}
+		applied = true
+		return desc, nil
+	}
+
+	ret, err := w.store.UpdateInvoice(w.ctx, ref, hint, cb)
+
+	// read back through the same reference and the modifier UpdateInvoice used
+	rref := ref
+	if hint != nil {
+		s := sid
+		rref.setID = &s
+		rref.refModifier = HtlcSetOnlyModifier
+	}
+	if !w.after(rref, ret, err, before, full) {
+		vReach("refused")
+		return
+	}
+	if !applied {
+		vAssert(len(w.f.upd) == 0 && len(w.f.htlc) == len(before.htlc), "no update descriptor: nothing written")
+		vReach("no-update")
+		return
+	}
+
+	h, recorded := ret.Htlcs[key]
+	switch op {
+	case c15xAmpAdd, c15xAmpAddComplete:
+		vAssert(recorded, "an added HTLC is part of the returned invoice")
+		if !recorded {
+			return
+		}
+		w.keys = append(w.keys, key)
+		w.sets = append(w.sets, sid)
+		if op == c15xAmpAdd {
+			vReach("amp-add-partial")
+			if len(ret.Htlcs) >= 2 {
+				vReach("amp-add-partial-to-set")
+			}
+			if w.canceledOne {
+				vReach("amp-timeout-cancel-then-new-shard")
+			}
+		} else {
+			vAssert(h.State == HtlcStateSettled && ret.AMPState[sid].State == HtlcStateSettled,
+				"a completed AMP set is returned settled")
+			vReach("amp-settle")
+			if settled >= 2 {
+				vReach("amp-settle-set")
+			}
+		}
+
+	case c15xAmpCancelHtlc:
+		vAssert(recorded && h.State == HtlcStateCanceled, "a canceled HTLC is returned as canceled")
+		vReach("amp-cancel-htlc")
+		w.canceledOne = true
+
+	case c15xAmpCancelInvoice:
+		vReach("amp-cancel-invoice")
+		if len(ret.Htlcs) > 0 {
+			vReach("amp-cancel-invoice-with-htlcs")
+		}
+
+	case c15xAmpCancelSet:
+		vReach("amp-cancel-set")
+	}
+	_ = stateBefore
+}
+
+func c15xAmpEntry(steps int, strict bool) {
+	w := c15xNewWorld(true, steps)
+	w.strictAmpIdx = strict
+	for i := 0; i < steps; i++ {
+		w.ampStep()
+	}
+}
+
+// VerifC15xAmp2 / VerifC15xAmp3: histories of 2 / 3 UpdateInvoice steps on an AMP invoice.
+func VerifC15xAmp2() { c15xAmpEntry(2, false) }
+func VerifC15xAmp3() { c15xAmpEntry(3, false) }
+
+// VerifC15xAmpSettleIndex: the same two-step histories with the settle index /
+// settle date of the AMP sub-invoice compared in every case. Reports the
+// CANDIDATE FINDING of NOTES.md on the unchanged tree (shards pin the history
+// "one HTLC of a set recorded, the second one completes the set").
+func VerifC15xAmpSettleIndex() { c15xAmpEntry(2, true) }
